@@ -8,6 +8,7 @@
 //   files:= '-' | file (',' file)*         file := <hash32> '=' content
 //   content := 'x' hex*                    literal bytes
 //            | 's' md5 '.' len '.' gen     symbolic: gen := 'R' seed 'n' len ('~f' bitpos | '~t' len | '~a' hex)*
+//                                          (md5(seed) repeated to len bytes, page number xor-ed into each 4 KiB page)
 //   reqs := req (';' req)*
 //   req  := 'G:' hash [':' hint] | 'H:' hash | 'P:' hash ':' content [':nocl']
 // One result line per case: per request
@@ -91,6 +92,12 @@ func verifC01Content(spec string) ([]byte, error) {
 		pat := md5.Sum([]byte(sn[0]))
 		buf := make([]byte, n)
 		for i := 0; i < n; i += copy(buf[i:], pat[:]) {
+		}
+		// make every 4 KiB page distinct (a purely periodic block would hide chunk-offset bugs)
+		for k := 0; k*4096+8 <= n; k++ {
+			for j := 0; j < 8; j++ {
+				buf[k*4096+j] ^= byte(uint64(k) >> uint(8*j))
+			}
 		}
 		for _, op := range ops[1:] {
 			if op == "" {
